@@ -25,6 +25,18 @@ def _errs(L):
     return (L.LockContention, L.LockFailed, L.LockBroken, L.LockBreakMismatch, L.LockNotHeld, TransportError, PathError)
 
 
+def _known_behaviour(cx, fs, removed, exc_name):
+    """Inside the input class of the known finding (the lock changed hands between force_break's peek and its rename) the
+    recorded behaviour is: the later holder's directory has been moved to broken.*.tmp, the mismatch is DETECTED
+    (LockBreakMismatch) and the moved directory still carries that holder's information.  Anything worse in the same class
+    - reporting success, deleting the later holder's lock - is still a violation."""
+    cx.require(exc_name == "LockBreakMismatch",
+               "the lock changed hands before the rename and the mismatch went unreported (%s): a live holder's lock was "
+               "removed silently" % (exc_name or "success",))
+    kept = [d for d, info in fs.dirs.items() if info is not None and info is not env.NOINFO and cx.truth(info.nonce == removed.nonce)]
+    cx.require(len(kept) == 1, "the later holder's lock directory was destroyed instead of being left for inspection")
+
+
 def ob_attempt(cx):
     """_attempt_lock: success only if the info read after the rename carries our nonce; stealing only from a holder that
     is known dead and only when configured."""
@@ -33,11 +45,12 @@ def ob_attempt(cx):
     if cx.choose("initially_held", 0, 1):
         fs.held = fs.fresh_foreign()
     ok = False
+    exc_name = None
     try:
         ld.attempt_lock()
         ok = True
-    except _errs(L):
-        pass
+    except _errs(L) as e:
+        exc_name = type(e).__name__
     if ok:
         cx.require(ld._lock_held is True, "attempt_lock returned without marking the lock held")
         cx.require(fs.last_peek not in (None, "absent") and cx.truth(fs.last_peek.nonce == env.OUR_NONCE),
@@ -51,7 +64,10 @@ def ob_attempt(cx):
     # every lock we removed (stolen) belonged to a holder reported dead, stealing was enabled, and it is the holder we looked at
     for removed, last_peek in fs.removed:
         cx.require(steal, "a lock was broken although locks.steal_dead is off")
-        cx.known(K_BREAK, last_peek == "absent" or not cx.truth(last_peek.nonce == removed.nonce))
+        in_class = last_peek == "absent" or not cx.truth(last_peek.nonce == removed.nonce)
+        if in_class:
+            _known_behaviour(cx, fs, removed, exc_name)
+        cx.known(K_BREAK, in_class)
         cx.require(removed.dead, "a lock was stolen from a holder that is not known to be dead")
         cx.require(last_peek != "absent" and cx.truth(last_peek.nonce == removed.nonce),
                    "the lock that was removed is not the one whose holder information was examined")
@@ -106,6 +122,8 @@ def ob_force_break(cx):
         exc = "NoSuchFile"          # the holder released the lock while we were breaking it: nothing was removed
         cx.require(not fs.removed, "NoSuchFile although a lock was moved away")
     for removed, last_peek in fs.removed:
+        if not cx.truth(removed.nonce == examined.nonce):
+            _known_behaviour(cx, fs, removed, exc)
         cx.known(K_BREAK, not cx.truth(removed.nonce == examined.nonce))
         cx.require(cx.truth(removed.nonce == examined.nonce),
                    "force_break moved away the lock of a holder other than the one that was examined")
